@@ -409,7 +409,7 @@ def run_prop(prop, tier, seed):
             break
         mism += len(f)
         for j in f[:2]:
-            rep.violation("%s:model-mismatch" % ("borrow" if prop == "C07" else "scoped"), {"broken": "correspondence impl<->Model/Borrow.v (b_run)", "case": sh[j][:4000]}, no_input=not fails)
+            rep.violation("%s:model-mismatch" % ("borrow" if prop == "C07" else "scoped"), {"broken": "correspondence impl<->Model/Borrow.v (b_run)", "case": sh[j][:4000]}, no_input=not rep.has_failing_input())
     rep.cov["traces_validated_against_impl"] = len(texts)
     rep.notes["model_mismatches"] = mism
     rep.notes["generator_underlying_histories_checked_by_predicates_only"] = len(gen_cases)
